@@ -480,218 +480,260 @@ pub fn build_with(w: &WithSpec, d: Dialect) -> WithClause {
 
 pub fn build_select(s: &SelectSpec, d: Dialect) -> SelectStatement {
     let mut q = Query::select();
-    match &s.distinct {
-        None | Some(Dist::None) => {}
-        Some(Dist::All) => {
-            // there is no public setter for ALL; `distinct()` then nothing. ALL is reachable only through
-            // SelectDistinct, which has no builder method: treated as no distinct.
-        }
-        Some(Dist::Distinct) => {
-            q.distinct();
-        }
-        Some(Dist::DistinctRow) => {
-            q.distinct();
-        }
-        Some(Dist::DistinctOn(cols)) => {
-            q.distinct_on(cols.iter().map(|c| al(QCOLS[*c as usize % 5])).collect::<Vec<_>>());
-        }
-    }
     let bit = |n: u8| (s.api >> n) & 1 == 1;
-    for it in &s.items {
-        // plain columns through the column shortcuts
-        if bit(1) && it.win.is_none() && it.alias.is_none() {
-            match &it.e {
-                E::Col(i) => {
-                    q.column(al(crate::expr_spec::COLS[*i as usize % 4]));
-                    continue;
+    // the clause-setting calls are independent of each other: natural order, reversed, or rotated (chosen by the selector)
+    let n_sections = 15;
+    let order: Vec<usize> = match s.api % 4 {
+        2 => (0..n_sections).rev().collect(),
+        1 => (0..n_sections).map(|k| (k + (s.api as usize / 4)) % n_sections).collect(),
+        _ => (0..n_sections).collect(),
+    };
+    for section in order {
+        match section {
+            0 => {
+                match &s.distinct {
+                    None | Some(Dist::None) => {}
+                    Some(Dist::All) => {
+                        // there is no public setter for ALL; `distinct()` then nothing. ALL is reachable only through
+                        // SelectDistinct, which has no builder method: treated as no distinct.
+                    }
+                    Some(Dist::Distinct) => {
+                        q.distinct();
+                    }
+                    Some(Dist::DistinctRow) => {
+                        q.distinct();
+                    }
+                    Some(Dist::DistinctOn(cols)) => {
+                        q.distinct_on(cols.iter().map(|c| al(QCOLS[*c as usize % 5])).collect::<Vec<_>>());
+                    }
                 }
-                E::QCol(t, c) => {
-                    q.columns([(al(QUALS[*t as usize % 8]), al(QCOLS[*c as usize % 5]))]);
-                    continue;
+            }
+            1 => {
+                for it in &s.items {
+                    // plain columns through the column shortcuts
+                    if bit(1) && it.win.is_none() && it.alias.is_none() {
+                        match &it.e {
+                            E::Col(i) => {
+                                q.column(al(crate::expr_spec::COLS[*i as usize % 4]));
+                                continue;
+                            }
+                            E::QCol(t, c) => {
+                                q.columns([(al(QUALS[*t as usize % 8]), al(QCOLS[*c as usize % 5]))]);
+                                continue;
+                            }
+                            _ => {}
+                        }
+                    }
+                    let e = it.e.build(d);
+                    match (&it.win, it.alias) {
+                        (None, None) => {
+                            if bit(2) {
+                                q.exprs([e]);
+                            } else {
+                                q.expr(e);
+                            }
+                        }
+                        (None, Some(a)) => {
+                            q.expr_as(e, al(item_alias(a)));
+                        }
+                        (Some(WinRef::Inline(w)), None) => {
+                            q.expr_window(e, build_window(w, d));
+                        }
+                        (Some(WinRef::Inline(w)), Some(a)) => {
+                            q.expr_window_as(e, build_window(w, d), al(item_alias(a)));
+                        }
+                        (Some(WinRef::Named), None) => {
+                            q.expr_window_name(e, al("w"));
+                        }
+                        (Some(WinRef::Named), Some(a)) => {
+                            q.expr_window_name_as(e, al("w"), al(item_alias(a)));
+                        }
+                    }
                 }
-                _ => {}
             }
-        }
-        let e = it.e.build(d);
-        match (&it.win, it.alias) {
-            (None, None) => {
-                if bit(2) {
-                    q.exprs([e]);
-                } else {
-                    q.expr(e);
+            2 => {
+                for f in &s.from {
+                    match f {
+                        FromSpec::Table(t, Some(a)) if bit(2) => {
+                            q.from_as(al(TABLES[*t as usize % 3]), al(QUALS[*a as usize % 8]));
+                        }
+                        FromSpec::Table(..) | FromSpec::Cte(..) => {
+                            q.from(table_ref(f).unwrap());
+                        }
+                        FromSpec::Sub(sub, a) => {
+                            q.from_subquery(build_select(sub, d), al(QUALS[*a as usize % 8]));
+                        }
+                        FromSpec::Values(rows, a) => {
+                            let tuples: Vec<ValueTuple> = rows.iter().map(|r| ValueTuple::Many(r.iter().map(|v| Value::BigInt(Some(*v))).collect())).collect();
+                            q.from_values(tuples, al(QUALS[*a as usize % 8]));
+                        }
+                    }
                 }
             }
-            (None, Some(a)) => {
-                q.expr_as(e, al(item_alias(a)));
+            3 => {
+                for j in &s.joins {
+                    let kind = match j.kind {
+                        JoinKind::Join => JoinType::Join,
+                        JoinKind::Inner => JoinType::InnerJoin,
+                        JoinKind::Left => JoinType::LeftJoin,
+                        JoinKind::Right => JoinType::RightJoin,
+                        JoinKind::FullOuter => JoinType::FullOuterJoin,
+                        JoinKind::Cross => JoinType::CrossJoin,
+                    };
+                    match &j.src {
+                        FromSpec::Table(t, Some(a)) if bit(2) => {
+                            q.join_as(kind, al(TABLES[*t as usize % 3]), al(QUALS[*a as usize % 8]), build_cond(&j.on, d));
+                        }
+                        FromSpec::Table(..) | FromSpec::Cte(..) => {
+                            let t = table_ref(&j.src).unwrap();
+                            let on = build_cond(&j.on, d);
+                            if s.api % 2 == 0 {
+                                q.join(kind, t, on);
+                            } else {
+                                match j.kind {
+                                    JoinKind::Left => q.left_join(t, on),
+                                    JoinKind::Right => q.right_join(t, on),
+                                    JoinKind::Inner => q.inner_join(t, on),
+                                    JoinKind::FullOuter => q.full_outer_join(t, on),
+                                    JoinKind::Cross => q.cross_join(t, on),
+                                    JoinKind::Join => q.join(kind, t, on),
+                                };
+                            }
+                        }
+                        FromSpec::Sub(sub, a) => {
+                            if j.lateral {
+                                q.join_lateral(kind, build_select(sub, d), al(QUALS[*a as usize % 8]), j.on.build(d));
+                            } else {
+                                q.join_subquery(kind, build_select(sub, d), al(QUALS[*a as usize % 8]), j.on.build(d));
+                            }
+                        }
+                        FromSpec::Values(..) => {}
+                    }
+                }
             }
-            (Some(WinRef::Inline(w)), None) => {
-                q.expr_window(e, build_window(w, d));
+            4 => {
+                for (i, w) in s.wheres.iter().enumerate() {
+                    let k = s.api.wrapping_add(i as u8);
+                    match (k % 7, matches!(w, E::Cond { .. })) {
+                        (5, false) => {
+                            let e = w.build(d);
+                            q.conditions(true, |x| { x.and_where(e); }, |_| {});
+                        }
+                        (6, false) => {
+                            q.apply_if(Some(w.build(d)), |x, e| { x.and_where(e); });
+                        }
+                        _ => add_where(&mut q, w, d, k),
+                    }
+                }
             }
-            (Some(WinRef::Inline(w)), Some(a)) => {
-                q.expr_window_as(e, build_window(w, d), al(item_alias(a)));
+            5 => {
+                for g in &s.groups {
+                    match g {
+                        E::Col(i) if bit(3) => {
+                            q.group_by_col(al(crate::expr_spec::COLS[*i as usize % 4]));
+                        }
+                        E::QCol(t, c) if bit(3) => {
+                            q.group_by_columns([(al(QUALS[*t as usize % 8]), al(QCOLS[*c as usize % 5]))]);
+                        }
+                        _ => {
+                            q.add_group_by([g.build(d)]);
+                        }
+                    }
+                }
             }
-            (Some(WinRef::Named), None) => {
-                q.expr_window_name(e, al("w"));
+            6 => {
+                for (i, h) in s.havings.iter().enumerate() {
+                    if matches!(h, E::Cond { .. }) {
+                        q.cond_having(build_cond(h, d));
+                    } else if s.api.wrapping_add(i as u8) % 2 == 0 {
+                        q.and_having(h.build(d));
+                    } else {
+                        q.cond_having(h.build(d));
+                    }
+                }
             }
-            (Some(WinRef::Named), Some(a)) => {
-                q.expr_window_name_as(e, al("w"), al(item_alias(a)));
+            7 => {
+                for (u, sub) in &s.unions {
+                    let ut = match u {
+                        Un::Union => UnionType::Distinct,
+                        Un::UnionAll => UnionType::All,
+                        Un::Intersect => UnionType::Intersect,
+                        Un::Except => UnionType::Except,
+                    };
+                    if bit(6) {
+                        q.unions([(ut, build_select(sub, d))]);
+                    } else {
+                        q.union(ut, build_select(sub, d));
+                    }
+                }
             }
-        }
-    }
-    for f in &s.from {
-        match f {
-            FromSpec::Table(t, Some(a)) if bit(2) => {
-                q.from_as(al(TABLES[*t as usize % 3]), al(QUALS[*a as usize % 8]));
+            8 => {
+                for o in &s.orders {
+                    add_order_k(&mut q, o, d, bit(4));
+                }
             }
-            FromSpec::Table(..) | FromSpec::Cte(..) => {
-                q.from(table_ref(f).unwrap());
+            9 => {
+                if let Some(l) = s.limit {
+                    q.limit(l);
+                }
+                if let Some(o) = s.offset {
+                    q.offset(o);
+                }
             }
-            FromSpec::Sub(sub, a) => {
-                q.from_subquery(build_select(sub, d), al(QUALS[*a as usize % 8]));
+            10 => {
+                if let Some(l) = &s.lock {
+                    let ty = [LockType::Update, LockType::NoKeyUpdate, LockType::Share, LockType::KeyShare][l.ty as usize % 4];
+                    let tables: Vec<Alias> = l.tables.iter().map(|t| al(TABLES[*t as usize % 3])).collect();
+                    match l.behavior % 3 {
+                        0 if tables.is_empty() && bit(5) => {
+                            match ty {
+                                LockType::Update if bit(4) => q.lock_exclusive(),
+                                LockType::Share if bit(4) => q.lock_shared(),
+                                _ => q.lock(ty),
+                            };
+                        }
+                        1 | 2 if tables.is_empty() && bit(5) => {
+                            q.lock_with_behavior(ty, if l.behavior % 3 == 1 { LockBehavior::Nowait } else { LockBehavior::SkipLocked });
+                        }
+                        0 => {
+                            q.lock_with_tables(ty, tables);
+                        }
+                        1 => {
+                            q.lock_with_tables_behavior(ty, tables, LockBehavior::Nowait);
+                        }
+                        _ => {
+                            q.lock_with_tables_behavior(ty, tables, LockBehavior::SkipLocked);
+                        }
+                    }
+                }
             }
-            FromSpec::Values(rows, a) => {
-                let tuples: Vec<ValueTuple> = rows.iter().map(|r| ValueTuple::Many(r.iter().map(|v| Value::BigInt(Some(*v))).collect())).collect();
-                q.from_values(tuples, al(QUALS[*a as usize % 8]));
+            11 => {
+                if let Some(w) = &s.window {
+                    q.window(al("w"), build_window(w, d));
+                }
             }
-        }
-    }
-    for j in &s.joins {
-        let kind = match j.kind {
-            JoinKind::Join => JoinType::Join,
-            JoinKind::Inner => JoinType::InnerJoin,
-            JoinKind::Left => JoinType::LeftJoin,
-            JoinKind::Right => JoinType::RightJoin,
-            JoinKind::FullOuter => JoinType::FullOuterJoin,
-            JoinKind::Cross => JoinType::CrossJoin,
-        };
-        match &j.src {
-            FromSpec::Table(t, Some(a)) if bit(2) => {
-                q.join_as(kind, al(TABLES[*t as usize % 3]), al(QUALS[*a as usize % 8]), build_cond(&j.on, d));
+            12 => {
+                if let Some(w) = &s.with {
+                    q.with_cte(build_with(w, d));
+                }
             }
-            FromSpec::Table(..) | FromSpec::Cte(..) => {
-                let t = table_ref(&j.src).unwrap();
-                let on = build_cond(&j.on, d);
-                if s.api % 2 == 0 {
-                    q.join(kind, t, on);
-                } else {
-                    match j.kind {
-                        JoinKind::Left => q.left_join(t, on),
-                        JoinKind::Right => q.right_join(t, on),
-                        JoinKind::Inner => q.inner_join(t, on),
-                        JoinKind::FullOuter => q.full_outer_join(t, on),
-                        JoinKind::Cross => q.cross_join(t, on),
-                        JoinKind::Join => q.join(kind, t, on),
+            13 => {
+                for (k, sc) in &s.hints {
+                    let scope = [IndexHintScope::All, IndexHintScope::Join, IndexHintScope::OrderBy, IndexHintScope::GroupBy][*sc as usize % 4];
+                    match k % 3 {
+                        0 => q.use_index(al("ix1"), scope),
+                        1 => q.ignore_index(al("ix2"), scope),
+                        _ => q.force_index(al("ix3"), scope),
                     };
                 }
             }
-            FromSpec::Sub(sub, a) => {
-                if j.lateral {
-                    q.join_lateral(kind, build_select(sub, d), al(QUALS[*a as usize % 8]), j.on.build(d));
-                } else {
-                    q.join_subquery(kind, build_select(sub, d), al(QUALS[*a as usize % 8]), j.on.build(d));
+            14 => {
+                if let Some((bern, pct, rep)) = s.sample {
+                    q.table_sample(if bern { SampleMethod::BERNOULLI } else { SampleMethod::SYSTEM }, pct as f64, rep.map(|r| r as f64));
                 }
             }
-            FromSpec::Values(..) => {}
+            _ => {}
         }
-    }
-    for (i, w) in s.wheres.iter().enumerate() {
-        let k = s.api.wrapping_add(i as u8);
-        match (k % 7, matches!(w, E::Cond { .. })) {
-            (5, false) => {
-                let e = w.build(d);
-                q.conditions(true, |x| { x.and_where(e); }, |_| {});
-            }
-            (6, false) => {
-                q.apply_if(Some(w.build(d)), |x, e| { x.and_where(e); });
-            }
-            _ => add_where(&mut q, w, d, k),
-        }
-    }
-    for g in &s.groups {
-        match g {
-            E::Col(i) if bit(3) => {
-                q.group_by_col(al(crate::expr_spec::COLS[*i as usize % 4]));
-            }
-            E::QCol(t, c) if bit(3) => {
-                q.group_by_columns([(al(QUALS[*t as usize % 8]), al(QCOLS[*c as usize % 5]))]);
-            }
-            _ => {
-                q.add_group_by([g.build(d)]);
-            }
-        }
-    }
-    for (i, h) in s.havings.iter().enumerate() {
-        if matches!(h, E::Cond { .. }) {
-            q.cond_having(build_cond(h, d));
-        } else if s.api.wrapping_add(i as u8) % 2 == 0 {
-            q.and_having(h.build(d));
-        } else {
-            q.cond_having(h.build(d));
-        }
-    }
-    for (u, sub) in &s.unions {
-        let ut = match u {
-            Un::Union => UnionType::Distinct,
-            Un::UnionAll => UnionType::All,
-            Un::Intersect => UnionType::Intersect,
-            Un::Except => UnionType::Except,
-        };
-        if bit(6) {
-            q.unions([(ut, build_select(sub, d))]);
-        } else {
-            q.union(ut, build_select(sub, d));
-        }
-    }
-    for o in &s.orders {
-        add_order_k(&mut q, o, d, bit(4));
-    }
-    if let Some(l) = s.limit {
-        q.limit(l);
-    }
-    if let Some(o) = s.offset {
-        q.offset(o);
-    }
-    if let Some(l) = &s.lock {
-        let ty = [LockType::Update, LockType::NoKeyUpdate, LockType::Share, LockType::KeyShare][l.ty as usize % 4];
-        let tables: Vec<Alias> = l.tables.iter().map(|t| al(TABLES[*t as usize % 3])).collect();
-        match l.behavior % 3 {
-            0 if tables.is_empty() && bit(5) => {
-                match ty {
-                    LockType::Update if bit(4) => q.lock_exclusive(),
-                    LockType::Share if bit(4) => q.lock_shared(),
-                    _ => q.lock(ty),
-                };
-            }
-            1 | 2 if tables.is_empty() && bit(5) => {
-                q.lock_with_behavior(ty, if l.behavior % 3 == 1 { LockBehavior::Nowait } else { LockBehavior::SkipLocked });
-            }
-            0 => {
-                q.lock_with_tables(ty, tables);
-            }
-            1 => {
-                q.lock_with_tables_behavior(ty, tables, LockBehavior::Nowait);
-            }
-            _ => {
-                q.lock_with_tables_behavior(ty, tables, LockBehavior::SkipLocked);
-            }
-        }
-    }
-    if let Some(w) = &s.window {
-        q.window(al("w"), build_window(w, d));
-    }
-    if let Some(w) = &s.with {
-        q.with_cte(build_with(w, d));
-    }
-    for (k, sc) in &s.hints {
-        let scope = [IndexHintScope::All, IndexHintScope::Join, IndexHintScope::OrderBy, IndexHintScope::GroupBy][*sc as usize % 4];
-        match k % 3 {
-            0 => q.use_index(al("ix1"), scope),
-            1 => q.ignore_index(al("ix2"), scope),
-            _ => q.force_index(al("ix3"), scope),
-        };
-    }
-    if let Some((bern, pct, rep)) = s.sample {
-        q.table_sample(if bern { SampleMethod::BERNOULLI } else { SampleMethod::SYSTEM }, pct as f64, rep.map(|r| r as f64));
     }
     // the two documented ways of finishing a builder chain
     if s.api % 5 == 3 {
